@@ -18,6 +18,7 @@ import (
 type seqP struct {
 	Exotic  bool     `json:"exotic,omitempty"`
 	Twins   bool     `json:"twins,omitempty"`
+	Reopen  int      `json:"reopen,omitempty"` // every Reopen-th call is made by a NEW instance over the same tape and index (process restart): nothing a call relies on may live only in the old instance
 	Root    string   `json:"root,omitempty"` // C17: the drive starts as a foreign archive holding only a top-level directory of this name
 	RootFmt string   `json:"rootfmt,omitempty"`
 	Cfg     Cfg      `json:"cfg"`
@@ -120,6 +121,9 @@ func seqCases(prop, tier string, seed uint64) []Case {
 		}
 		if prop == "C05" && i%8 == 7 {
 			p.Cfg.Overwrite = true
+		}
+		if i%5 == 4 && prop != "C07" {
+			p.Reopen = 1 + r.Intn(4)
 		}
 		if i%48 == 47 && prop != "C07" && prop != "C01" {
 			// long histories over many names: wide directories (dozens of children), tapes of hundreds of records
@@ -768,7 +772,7 @@ func seqRun(prop, tier string, c Case, w *Worker) (res Result) {
 		res.Verdict, res.Msg = "inconclusive", "rig: "+err.Error()
 		return
 	}
-	defer rig.Close()
+	defer func() { rig.Close() }()
 	h := &hist{prop: prop, w: w, rig: rig, cfg: rig.Cfg, model: NewModel(), inSync: true, res: &res, kind: "random"}
 	if p.Witness != "" {
 		h.kind = "witness:" + p.Witness
@@ -857,6 +861,29 @@ func seqRun(prop, tier string, c Case, w *Worker) (res Result) {
 			op.A, op.B = strings.ReplaceAll(op.A, "{E9}", "\xe9"), strings.ReplaceAll(op.B, "{E9}", "\xe9")
 		} else {
 			op = gen.Next(h.tree)
+		}
+		if p.Reopen > 0 && h.step > 0 && h.step%p.Reopen == 0 && !cfg.Overwrite {
+			// process restart: a new instance over the same drive and index file takes over
+			rig.LocksSettled()
+			for k, dh := range h.held {
+				_ = dh.Close()
+				delete(h.held, k)
+			}
+			rig.Close()
+			nr, err := NewRig(dir, cfg)
+			if err != nil {
+				res.Verdict, res.Msg = "inconclusive", "rig: "+err.Error()
+				return
+			}
+			nr.Cfg = rig.Cfg
+			rig = nr
+			h.rig = nr
+			if err := rig.Init(); err != nil {
+				h.ops = append(h.ops, Op{K: "reopen"})
+				h.violate("reopen", "a new instance over the same tape and index (restart before call %d) cannot be initialised: %v", h.step, err)
+				return
+			}
+			res.count("instance_restarts", 1)
 		}
 		h.ops = append(h.ops, op)
 		before := h.tree
